@@ -66,3 +66,17 @@ Proof.
     | unfold LevelNames.parse_level, Level.parse_level; cbv zeta;
       repeat (gen_split; gen_inj; try reflexivity; try discriminate; try congruence) ].
 Qed.
+
+(* Level.UnmarshalText: ParseLevel of the text and nothing else; the receiver is written iff the name is known *)
+Lemma gen_unmarshal_text : forall g level s tr,
+  LevelNames.unmarshal_text (r_s2l g) level s tr =
+  match Level.parse_level g s with
+  | Some l => (None, l, tr)
+  | None => (Some tt, level, tr ++ [EvWarnUnknown s])
+  end.
+Proof.
+  intros g level s tr.
+  first
+    [ unfold LevelNames.unmarshal_text; rewrite gen_parse_level; destruct (Level.parse_level g s); reflexivity
+    | unfold LevelNames.unmarshal_text, unmarshal_text_ref; destruct (Level.parse_level _ s) eqn:E; reflexivity ].
+Qed.
